@@ -102,6 +102,35 @@ def _inline_one(caller_rec, b, h):
             return x
 
         hm = sub(hm)
+        # a call through an `impl Fn` parameter that this instantiation binds to a function *item* of the crate is a direct call
+        # of that function (`take(first)` with take = slice_take_first::<T>)
+        for blk_ in hm["blocks"]:
+            t_ = blk_["term"]
+            if t_.get("k") != "call" or not isinstance(t_.get("func"), dict) or not isinstance(t_["func"].get("fn"), dict):
+                continue
+            fn_d = t_["func"]["fn"]
+            if fn_d.get("path") not in ("core::ops::function::Fn::call", "core::ops::function::FnMut::call_mut", "core::ops::function::FnOnce::call_once"):
+                continue
+            a0 = str((fn_d.get("args") or [""])[0])
+            m_ = _re.match(r"^fn\{([A-Za-z_][A-Za-z0-9_:]*)(?:<(.*)>)?\}", a0)
+            if not m_ or len(t_.get("args", [])) != 2 or t_["args"][1].get("k") not in ("move", "copy") or t_["args"][1]["place"].get("proj"):
+                continue
+            tup = t_["args"][1]["place"]["local"]
+            agg = None
+            for st_ in blk_["stmts"]:
+                if st_.get("k") == "assign" and st_["place"].get("local") == tup and not st_["place"].get("proj") and st_["rv"].get("k") == "aggregate" and st_["rv"].get("agg") == "tuple":
+                    agg = st_["rv"]
+            if agg is None:
+                continue
+            path_ = m_.group(1)
+            targs_ = [x.strip() for x in (m_.group(2) or "").split(",") if x.strip()]
+            name_ = path_.split("::")[-1]
+            krate_ = path_.split("::")[0]
+            t_["func"] = {"k": "const", "ty": "fn{%s}" % path_, "disp": path_,
+                          "fn": {"path": path_, "short": name_, "krate": krate_, "name": name_, "local": True, "args": targs_, "rkind": "item",
+                                 "rpath": path_, "rshort": name_, "rkrate": krate_, "rlocal": True, "rargs": targs_, "preds": []}}
+            t_["args"] = [copy.deepcopy(fl["op"]) for fl in agg["fields"]]
+            t_["desugared"] = "fn-item-call"
         # a generic `impl Fn` parameter instantiated with a function item or pointer has no destructor: its scope-end drop in
         # the generic body is a no-op in this instantiation
         for blk_ in hm["blocks"]:
